@@ -36,5 +36,5 @@ if earlier:
           "variation of any of them:")
     for i, (k, v) in enumerate(earlier, 1):
         print(f"  {i}. {v['change']} (needed: {v['needs']})")
-    print('''Study ALL the files listed under "anchors" (and the code they call, including helper modules such as black_it/utils/*.py, black_it/search_space.py, black_it/utils/seedable.py, black_it/samplers/base.py, black_it/loss_functions/base.py) before choosing: prefer a file or function the previous changes left alone. A strong randomized test-suite for this property already exists that draws: all constructor options, special numbers (exact zeros, negative zeros, NaN/inf where allowed, -inf and +-float max, subnormal and near-overflow magnitudes, ties), integer / unsigned / float32 / boolean arrays and plain lists, Python and numpy integers where floats are expected, repeated use of one object with different arguments, caller-side reuse of argument arrays, pickling/restoring mid-way, replaced line-ups, failing batches (also with parallel workers, also KeyboardInterrupt-like BaseExceptions, also in the very first batch), rejected calls between valid ones, stateful user-defined losses / schedulers / models, models that modify their arguments or use numpy's global random state, many-parameter (hundreds) spaces, verbose on/off, relative and empty folder names, non-contiguous / Fortran-ordered arrays, runs repeated in fresh interpreters under different hash salts, and slow threads; finite domains are enumerated completely and thread interleavings of the RL scheduler are explored exhaustively. Your change must SURVIVE that kind of testing as long as possible: find the narrowest realistic trigger you can (a conjunction of two or three ordinary-looking conditions, an ordering of operations, a particular count relation such as batch_size == number of existing points, a specific dimension, a value that is only special to this code), while still being a realistic slip a reviewer could wave through and still breaking the property AS STATED (re-read the statement: your demo must show a violation of one of its clauses, not of something the statement does not promise).
+    print('''Study ALL the files listed under "anchors" (and the code they call, including helper modules such as black_it/utils/*.py, black_it/search_space.py, black_it/utils/seedable.py, black_it/samplers/base.py, black_it/loss_functions/base.py) before choosing: prefer a file or function the previous changes left alone. A strong randomized test-suite for this property already exists that draws: all constructor options, special numbers (exact zeros, negative zeros, NaN/inf where allowed, -inf and +-float max, subnormal and near-overflow magnitudes, ties), integer / unsigned / float32 / boolean arrays and plain lists, Python and numpy integers where floats are expected, repeated use of one object with different arguments, caller-side reuse of argument arrays, pickling/restoring mid-way, replaced line-ups, failing batches (also with parallel workers, also KeyboardInterrupt-like BaseExceptions, also in the very first batch), rejected calls between valid ones, stateful user-defined losses / schedulers / models, models that modify their arguments or use numpy's global random state, many-parameter (hundreds) spaces, verbose on/off, relative and empty folder names, non-contiguous / Fortran-ordered arrays, runs repeated in fresh interpreters under different hash salts, sampler / scheduler / loss objects reused across calibrations, user-defined nested classes and scribbling user callbacks, extended-precision and integer-typed grids and declarations, histories of thousands of rows, random sources pinned to the ends of their ranges, and slow threads; finite domains are enumerated completely and thread interleavings of the RL scheduler are explored exhaustively. Your change must SURVIVE that kind of testing as long as possible: find the narrowest realistic trigger you can (a conjunction of two or three ordinary-looking conditions, an ordering of operations, a particular count relation such as batch_size == number of existing points, a specific dimension, a value that is only special to this code), while still being a realistic slip a reviewer could wave through and still breaking the property AS STATED (re-read the statement: your demo must show a violation of one of its clauses, not of something the statement does not promise).
 IMPORTANT process notes: never use `pkill`/`killall` (other jobs run pytest on this machine); if a foreground pytest run gets killed (exit 144), run it detached (`setsid nohup ... > log 2>&1 &`) and poll the log; run only the test files related to the code you touch plus ONE full-suite run at the end.''')
